@@ -644,6 +644,9 @@ class NetWorld(World):
         w = st["w"] if st["w"] is not None else geom.length() * st.get("wf", 1.0)
         e.weight = w
         na, nb = Node(a, ENUCoords(pa[0], pa[1], 0)), Node(b, ENUCoords(pb[0], pb[1], 0))
+        if a == b and len(pts) % 2 == 0:
+            nb = na                    # a loop declared with one and the same Node object for both ends
+            self.probe("loop_edge_with_one_node_object")
         if (len(pts) + len(m["edges"])) % 4 == 0:      # a function of the step and the model only
             # junctions declared first, roads afterwards (the other documented way of building a network)
             for nd in (na, nb):
